@@ -176,7 +176,7 @@ def merge_rules(ctx, ev):
     o = rets[0]
     address, size = Sym("param:address"), Sym("param:size")
 
-    R.rule("C12-D2a bounds test", 2, "an input reaching outside [address, address+size-1] is rejected before it is merged")
+    R.rule("C12-D2a bounds test", 3, "an input reaching outside [address, address+size-1] is rejected before it is merged")
     merges = find_effect_calls(o.effects, "meth:merge")
     if len(merges) != 1:
         raise AnalysisError(f"{fq}: merge call not recognised")
@@ -218,6 +218,22 @@ def merge_rules(ctx, ev):
             node=mg.node, function=fq, expected="minaddr() < address or maxaddr() > address + size - 1 (any equivalent linear form)",
             found=found)
 
+    # every input file is merged: nothing but the file list test and the bounds test stands between an input and its merge
+    from .c11 import _with_guards
+    files_p = Sym("param:files")
+    mg_guards = [g for e, g in _with_guards(o.effects) if isinstance(e, App) and e.op == "eff:call" and e.args[0] is mcall or (
+        isinstance(e, App) and e.op == "eff:call" and e.args[0] == mcall)]
+    extra_g = []
+    for g in mg_guards[:1]:
+        for c, pol in g:
+            is_files = c in (App("is not", (files_p, Const(None))), files_p) and pol or (c == App("is", (files_p, Const(None))) and not pol)
+            is_bounds = any(isinstance(s_, App) and s_.op in ("meth:minaddr", "meth:maxaddr") for s_ in subterms(c)) and not pol \
+                and rej and c == [c_ for c_ in rej[0].conds if any(isinstance(s_, App) and s_.op in ("meth:minaddr", "meth:maxaddr") for s_ in subterms(c_))][-1]
+            if not (is_files or is_bounds):
+                extra_g.append((c, pol))
+    R.check("C12-D2a bounds test", bool(mg_guards) and not extra_g, "every input that passes the bounds test is merged", mod=mg.module, node=mcall.node,
+            function=fq, expected="for file in files: bounds test; merge - no other condition skips an input",
+            found=f"merge also depends on {[(repr(c)[:80], pol) for c, pol in extra_g][:2]}")
     R.rule("C12-D2b overlap policy", 1, "inputs are merged with overlap='error'")
     kws = {a.args[0].v: a.args[1] for a in mcall.args if isinstance(a, App) and a.op == "kw"}
     pos_overlap = mcall.args[2] if len(mcall.args) > 2 and not (isinstance(mcall.args[2], App) and mcall.args[2].op == "kw") else None
